@@ -522,7 +522,7 @@ func (ip *Interp) defs(as []Attr) string {
 		}
 		if !ip.scriptDone {
 			ip.scriptDone = true
-			b.WriteString(q(`<script>`) + `function __templ_scr_[0-9a-f]+\(x\)\{[^<]*\}` + q(`</script>`))
+			b.WriteString(q(`<script>`) + `function __templ_scr_[0-9a-f]+\(x\)\{[^<{}]*\}` + q(`</script>`))
 		}
 	}
 	return b.String()
